@@ -16,7 +16,8 @@ from pathlib import Path
 VERIF = Path(__file__).resolve().parent.parent
 REPO = os.environ.get("VERIF_REPO", "/repo")
 OUT = VERIF / "out"
-EVID = VERIF / "evidence"
+# seed / mutant runs point this at scratch so that the committed evidence only ever comes from /repo itself
+EVID = Path(os.environ.get("VERIF_EVIDENCE_DIR", str(VERIF / "evidence")))
 TICKS_PER_MS = 1000
 
 
